@@ -84,6 +84,15 @@ def sub_align(case):
     used = N if n == -1 else n
     ro = ref.build(case["ref"]["pre"])
     eo = est.build(case["est"]["pre"])
+    if case.get("share_mats") and ref.mode == "se3" and est.mode == "se3" and N >= 4:
+        # the estimate was derived from the reference's pose list: its first poses ARE the reference's matrix objects
+        # (e.g. list(ref.poses_se3) with later poses replaced by drifted ones)
+        from evo.core.trajectory import PosePath3D
+        k = max(1, N // 3)
+        ref_mats = [T.copy() for T in ref.poses]
+        ro = PosePath3D(poses_se3=ref_mats)
+        eo = PosePath3D(poses_se3=list(ref_mats[:k]) + [T.copy() for T in est.poses[k:]])
+        est = trajgen.Real(np.vstack([ref.P[:k], est.P[k:]]), ref.Rs()[:k] + est.Rs()[k:], "se3")
     sref = snapshot.snapshot(ro)
     cs, cos = _mode_args(mode)
     try:
@@ -330,7 +339,7 @@ def _st_case(min_n, max_n, extra):
     return st.integers(min_n, max_n).flatmap(mk)
 
 
-st_align = _st_case(3, 24, {"mode": st.sampled_from(["rigid", "similarity", "scale", "scale_both"]),
+st_align = _st_case(3, 24, {"share_mats": st.sampled_from([False, False, False, True]), "mode": st.sampled_from(["rigid", "similarity", "scale", "scale_both"]),
                             "n": st.one_of(st.just(-1), st.integers(0, 40))})
 st_origin = _st_case(1, 12, {"near": st.one_of(st.none(), st.none(), st.fixed_dictionaries({
     "dir": st.lists(gen.unit_f, min_size=3, max_size=3), "wexp": st.sampled_from([0, 3, 5, 6, 7]), "d": st.lists(gen.unit_f, min_size=3, max_size=3),
